@@ -157,10 +157,11 @@ EXPORT errno_t _mbsrtowcs_s_chk(size_t *restrict retvalp,
                                                        (void *)dest, ESLEMAX);
                     return RCNEGATE(ESLEMAX);
                 } else {
-                    invoke_safe_str_constraint_handler(
-                        "mbsrtowcs_s"
-                        ": dmax/len exceeds destsz",
-                        (void *)dest, EOVERFLOW);
+                    /* as mbstowcs_s: dest is left empty */
+                    handle_werror(dest, destbos / sizeof(wchar_t),
+                                  "mbsrtowcs_s"
+                                  ": dmax/len exceeds destsz",
+                                  EOVERFLOW);
                     return RCNEGATE(EOVERFLOW);
                 }
             }
